@@ -53,6 +53,16 @@ func (m *Mint) checkInvoicePaid(ctx context.Context, quoteId string) {
 	case invoice := <-updateChan:
 		if invoice.Settled {
 			m.logInfof("received update from invoice sub. Invoice for mint quote '%v' is PAID", mintQuote.Id)
+			// the quote could have already been marked as paid (and issued) by a state check
+			// so only mark it as paid if it is still unpaid
+			currentQuote, err := m.db.GetMintQuote(quoteId)
+			if err != nil {
+				m.logErrorf("could not get mint quote '%v' from db: %v", quoteId, err)
+				return
+			}
+			if currentQuote.State != nut04.Unpaid {
+				return
+			}
 			mintQuote.State = nut04.Paid
 			if err := m.db.UpdateMintQuoteState(mintQuote.Id, mintQuote.State); err != nil {
 				m.logErrorf("could not mark mint quote '%v' as PAID in db: %v", mintQuote.Id, err)
